@@ -15,7 +15,15 @@ import (
 	"verif/engine"
 )
 
-const verifDir = "/verif"
+var verifDir = func() string {
+	if d, err := os.Getwd(); err == nil {
+		if _, err := os.Stat(filepath.Join(d, "checks.json")); err == nil {
+			return d
+		}
+	}
+	return "/verif"
+}()
+
 const repoDir = "/repo"
 
 type runSpec struct {
